@@ -16,7 +16,10 @@ existing models is the read stream the client then sees:
   free: the id the client POSTed, any accepted status, session header, object or one-element array;
 * Streamable HTTP, SSE bodies — `HttpDecide.run` over `Sse.renderText`; free additionally: event
   field absent / `message` / `response`, optional space after each colon, comment / `id:` /
-  `retry:` lines, LF / CRLF per line, the three ways the body may end;
+  `retry:` lines before every field line and before the blank line, events that carry no message
+  (data-less keep-alives, comment-only events, extra blank lines, typed non-message events with
+  data) before, between and after the message events, LF / CRLF per line, the three ways the
+  body may end;
 * legacy SSE — `SseReq.runChunks` (event-stream parser) followed by `SseReq.run` (pending-future
   machine of sender task and stream task); free: events before the first message (endpoint
   announcement, keep-alives, comments), LF / CRLF per event, the cutting of the stream into
@@ -152,34 +155,56 @@ def EvName.str : EvName → Option Str
   | .message => some "message".toList
   | .response => some "response".toList
 
+/-- An event of a body that carries no message, whatever the decoder: it is conformant and either
+has no data line (typed keep-alive, comment-only event, extra blank line) or is of a type other
+than `message` / `response`. -/
+def isNoise (e : Sse.Event) : Bool :=
+  Sse.Conformant e && (e.data.isEmpty ||
+    (decide (Sse.effType e.name ≠ "message".toList) && decide (Sse.effType e.name ≠ "response".toList)))
+
 /-- what is free about the rendering of one message as an SSE event -/
 structure EvChoice where
   name : EvName
   nameChoice : Sse.FieldChoice
   dataChoice : Sse.FieldChoice
+  /-- comment / `id:` / `retry:` lines between the data line and the blank line -/
+  after : List Sse.Ignored := []
+  /-- events without a message written in front of this one -/
+  before : List Sse.Event := []
   deriving Repr
 
-def EvChoice.dflt : EvChoice := ⟨.absent, Sse.dflt, Sse.dflt⟩
+def EvChoice.dflt : EvChoice := { name := .absent, nameChoice := Sse.dflt, dataChoice := Sse.dflt }
 
-/-- the ignored lines (comments, `id:`, `retry:`) are themselves well-formed -/
-def EvChoice.ok (c : EvChoice) : Bool := c.nameChoice.ok && c.dataChoice.ok
+/-- the ignored lines (comments, `id:`, `retry:`) are themselves well-formed and the interleaved
+events carry no message -/
+def EvChoice.ok (c : EvChoice) : Bool :=
+  c.nameChoice.ok && c.dataChoice.ok && c.after.all Sse.Ignored.ok && c.before.all isNoise
 
 def sseEvent {σ μ : Type} (W : Wire σ μ) (c : EvChoice) (s : σ) : Sse.Event :=
-  { name := c.name.str, data := [W.enc s], nameChoice := c.nameChoice, dataChoices := [c.dataChoice] }
+  { name := c.name.str, data := [W.enc s], nameChoice := c.nameChoice, dataChoices := [c.dataChoice], after := c.after }
+
+/-- the events written for one message: the interleaved ones, then its own -/
+def sseEvents {σ μ : Type} (W : Wire σ μ) (c : EvChoice) (s : σ) : List Sse.Event := c.before ++ [sseEvent W c s]
 
 structure SseBodyChoice where
   post : PostChoice
   evs : List EvChoice
   eols : List Bool
   tail : Sse.Tail
+  /-- events without a message after the reply's event -/
+  trailing : List Sse.Event := []
   deriving Repr
 
-def SseBodyChoice.dflt : SseBodyChoice := ⟨PostChoice.dflt, [], [], .full⟩
+def SseBodyChoice.dflt : SseBodyChoice := { post := PostChoice.dflt, evs := [], eols := [], tail := .full }
 
-def SseBodyChoice.ok (c : SseBodyChoice) : Bool := decide (c.post.status < 400) && c.evs.all EvChoice.ok
+def SseBodyChoice.ok (c : SseBodyChoice) : Bool :=
+  decide (c.post.status < 400) && c.evs.all EvChoice.ok && c.trailing.all isNoise
+
+def sseBodyEvents {σ μ : Type} (W : Wire σ μ) (c : SseBodyChoice) (e : Exchange σ) : List Sse.Event :=
+  (zipD EvChoice.dflt (sseEvents W) e.msgs c.evs).flatMap id ++ c.trailing
 
 def sseBodyText {σ μ : Type} (W : Wire σ μ) (c : SseBodyChoice) (e : Exchange σ) : Str :=
-  Sse.renderText (zipD EvChoice.dflt (sseEvent W) e.msgs c.evs) c.eols c.tail
+  Sse.renderText (sseBodyEvents W c e) c.eols c.tail
 
 def sseBodyPost {σ μ : Type} (W : Wire σ μ) (c : SseBodyChoice) (e : Exchange σ) :
     HttpDecide.Req × HttpDecide.Behaviour :=
